@@ -387,6 +387,17 @@ def alphabet(width: int, thin: bool = False) -> list[int]:
     return out
 
 
+def zero_byte_patterns(width: int) -> list[int]:
+    """Two values for a register wider than 8 bits, written as bytes in reading order (most significant first):
+    01 02 .. n-1 00 (LAST byte zero) and 00 01 .. n-1 (FIRST byte zero); all other bytes non-zero and pairwise
+    different (n <= 255).  Leading / trailing zero bytes are where width-from-magnitude arithmetic goes wrong."""
+    n = width // 8
+    if width % 8 or n < 2:
+        return []
+    body = bytes((i % 255) + 1 for i in range(n - 1))
+    return [int.from_bytes(body + b"\0", "big"), int.from_bytes(b"\0" + body, "big")]
+
+
 def structure_key(r: SpecReg) -> str:
     """Everything about a register except where it is and what it is called."""
     return json.dumps([r.width, r.reset, r.reserved, r.access, r.calculated is not None,
@@ -400,6 +411,7 @@ def selftest() -> None:
     f8 = SpecField({"width": 8, "calculated": "INVERSE", "name": "INV"}, 8)
     assert inverse_expected(0xAB05, f8) == 0xFA
     assert alphabet(1) == [0, 1] and alphabet(3) == [0, 1, 7, 6, 5, 2] and alphabet(3, thin=True) == [0, 1, 7, 5]
+    assert zero_byte_patterns(32) == [0x01020300, 0x00010203] and zero_byte_patterns(8) == [] and len(zero_byte_patterns(1152)) == 2
     assert xmcd_crc(b"123456789") == bytes.fromhex("0376E6E7")
     assert xmcd_header((0xC000000C).to_bytes(4, "little")) == {"size": 12, "block_type": 0, "instance": 0, "interface": 0,
                                                               "version": 0, "tag": 0xC}
